@@ -350,6 +350,8 @@ def run(chk):
     chk.guard(rule_r2, chk, m)
     chk.guard(rule_r3, chk, m)
     chk.guard(rule_r4, chk, m)
+    from .. import unused as _unused
+    chk.guard(_unused.apply, chk, "C11-R91")
     from .. import args as _args
     chk.guard(_args.apply, chk, "C11-R90", {'dates'}, 1)
     chk.assumptions = [
